@@ -48,6 +48,59 @@ struct PFacts {
     panicked: bool,
 }
 
+/// Two bodies on one thread: body A's consumer is parked on a waker that, when woken, forwards into body
+/// B's writer right there (a tee / proxy polled inline by its waker); B's consumer is parked too.  A's
+/// producer then publishes.  Returns true if B's consumer was NOT woken although B got a flush / an abort.
+fn nested_wake_lost(abort: bool) -> bool {
+    struct CountWaker(Arc<AtomicUsize>);
+    impl Wake for CountWaker {
+        fn wake(self: Arc<Self>) {
+            self.0.fetch_add(1, Ordering::SeqCst);
+        }
+    }
+    struct TeeWaker {
+        wb: Mutex<Option<http_serve::BodyWriter<Bytes, BoxError>>>,
+        abort: bool,
+    }
+    impl Wake for TeeWaker {
+        fn wake(self: Arc<Self>) {
+            self.wake_by_ref()
+        }
+        fn wake_by_ref(self: &Arc<Self>) {
+            if let Ok(mut g) = self.wb.try_lock() {
+                if let Some(w) = g.as_mut() {
+                    if self.abort {
+                        w.abort("aborted by the tee".into());
+                    } else {
+                        let _ = w.write_all(b"zz");
+                        let _ = w.flush();
+                    }
+                }
+            }
+        }
+    }
+    let r = std::panic::catch_unwind(|| {
+        let req = http::Request::builder().uri("/").body(()).unwrap();
+        let (resp_b, wb) = http_serve::streaming_body(&req).with_chunk_size(4).build::<Bytes, BoxError>();
+        let (resp_a, wa) = http_serve::streaming_body(&req).with_chunk_size(4).build::<Bytes, BoxError>();
+        let (Some(wb), Some(mut wa)) = (wb, wa) else { return false };
+        let mut body_b = Box::pin(resp_b.into_body());
+        let mut body_a = Box::pin(resp_a.into_body());
+        let hits_b = Arc::new(AtomicUsize::new(0));
+        let waker_b = Waker::from(Arc::new(CountWaker(hits_b.clone())));
+        let waker_a = Waker::from(Arc::new(TeeWaker { wb: Mutex::new(Some(wb)), abort }));
+        let parked_b = matches!(Pin::as_mut(&mut body_b).poll_frame(&mut Context::from_waker(&waker_b)), Poll::Pending);
+        let parked_a = matches!(Pin::as_mut(&mut body_a).poll_frame(&mut Context::from_waker(&waker_a)), Poll::Pending);
+        if !parked_a || !parked_b {
+            return false;
+        }
+        let _ = wa.write_all(b"ab");
+        let _ = wa.flush();
+        hits_b.load(Ordering::SeqCst) == 0
+    });
+    r.unwrap_or(true)
+}
+
 pub fn run_stress(case: &Value) -> Value {
     let cap = case["cap"].as_u64().unwrap_or(4) as usize;
     let iters = case["stress"].as_u64().unwrap_or(100);
@@ -261,7 +314,8 @@ pub fn run_stress(case: &Value) -> Value {
             }
         }
     }
-    json!({"ev": "stress", "case": case["id"], "iters": iters, "stuck": stuck, "mismatch": mismatch, "panics": panics,
+    let nested_lost = nested_wake_lost(false) as u64 + nested_wake_lost(true) as u64;
+    json!({"ev": "stress", "case": case["id"], "iters": iters, "nested_lost": nested_lost, "stuck": stuck, "mismatch": mismatch, "panics": panics,
            "clean": clean, "errors": errors, "flush_private": flush_private, "write_zero": write_zero,
            "ok_after_drop": ok_after_drop, "eos_then_more": eos_then_more})
 }
